@@ -148,11 +148,76 @@ func splitClass(class string) (tn, lock string) {
 	return class, ""
 }
 
+func (e *Engine) findLockRelys(tn, lock string) []*LockInv {
+	var out []*LockInv
+	for _, cf := range e.P.Contracts {
+		for _, li := range cf.LockRelys {
+			if li.Type == tn && li.Lock == lock {
+				out = append(out, li)
+			}
+		}
+	}
+	return out
+}
+
+// isOwner: the function under verification belongs to the owner thread of a rely clause.
+func (e *Engine) isOwner(li *LockInv) bool {
+	if e.top == nil {
+		return false
+	}
+	k := funcKey(e.top)
+	for _, o := range li.Owners {
+		if k == o || strings.HasSuffix(k, "."+o) || strings.HasPrefix(k, o+"$") || strings.Contains(k, "."+o+"$") {
+			return true
+		}
+	}
+	return false
+}
+
 func (e *Engine) lockAcquire(f *Frame, st *State, key, class, base string, baseT types.Type, pos token.Pos) {
 	tn, lock := splitClass(class)
 	again := e.lockedOnce[key]
 	e.lockedOnce[key] = true
+	// an acquisition inside a loop is a re-acquisition in every iteration but the first: the state the loop invariant
+	// describes at the loop head is this thread's view from its previous critical section, not the state found under the lock
+	if len(f.loopOf[e.curBlock]) > 0 && f.parent == nil {
+		again = true
+	}
 	stt, isStruct := baseT.Underlying().(*types.Struct)
+	var before *State
+	if again {
+		before = st.clone()
+	}
+	defer func() {
+		relys := e.findLockRelys(tn, lock)
+		if len(relys) == 0 {
+			return
+		}
+		if e.lockSnap == nil {
+			e.lockSnap = map[string]*State{}
+		}
+		// for the guarantee check at the matching unlock
+		e.lockSnap[key] = st.clone()
+		if before == nil {
+			return
+		}
+		for _, li := range relys {
+			if !e.isOwner(li) {
+				continue
+			}
+			ctx := f.evalCtx(st, nil)
+			ctx.noLocals = true
+			ctx.old = before
+			ctx.binds["self"] = Val{T: types.NewPointer(baseT), S: base}
+			g, err := e.evalBool(ctx, li.E)
+			if err != nil {
+				e.bindError("lockrely "+class, err)
+				continue
+			}
+			e.assume(st.cond, g)
+			e.assumed["lockrely "+class+": the owner functions ("+strings.Join(li.Owners, ", ")+") run in one goroutine, one after the other; the relation is reflexive and transitive (by inspection)"] = true
+		}
+	}()
 	if again && isStruct && !strings.HasPrefix(base, "G.") && !strings.HasPrefix(base, "cell.") {
 		// re-acquisition: other threads may have run critical sections in between - guarded state is arbitrary
 		for _, g := range e.findGuarded(tn) {
@@ -201,6 +266,26 @@ func (e *Engine) lockAcquire(f *Frame, st *State, key, class, base string, baseT
 
 func (e *Engine) lockRelease(f *Frame, st *State, key, class, base string, baseT types.Type, pos token.Pos) {
 	tn, lock := splitClass(class)
+	// guarantee: a critical section of a function outside the owner thread changes the guarded state only within the rely
+	for i, li := range e.findLockRelys(tn, lock) {
+		if e.isOwner(li) {
+			continue
+		}
+		snap := e.lockSnap[key]
+		if snap == nil {
+			continue
+		}
+		ctx := f.evalCtx(st, nil)
+		ctx.noLocals = true
+		ctx.old = snap
+		ctx.binds["self"] = Val{T: types.NewPointer(baseT), S: base}
+		g, err := e.evalBool(ctx, li.E)
+		if err != nil {
+			e.bindError("lockrely "+class, err)
+			continue
+		}
+		e.ob(f, fmt.Sprintf("lockrely.%s#%d", class, i+1), "critical section of a non-owner stays within the rely: "+li.Text, st.cond, g, pos)
+	}
 	for i, li := range e.findLockInvs(tn, lock) {
 		ctx := f.evalCtx(st, nil)
 		ctx.noLocals = true
@@ -549,6 +634,13 @@ func (f *Frame) execSelect(in *ssa.Select, st *State) {
 			sub.cond = sAnd(st.cond, sEq(idx.S, e.intLit(types.Typ[types.Int], fmt.Sprint(i))))
 			e.siteCall(f, sub, "send", []Val{f.val(s.Chan), f.val(s.Send)}, s.Pos)
 			e.chanGuard(f, sub, s.Chan, s.Pos)
+			// ghost updates made at the send site take effect exactly when this case is the chosen one
+			for g, nv := range sub.ghost {
+				ov, _ := e.getGhost(st, g)
+				if nv != ov {
+					st.ghost[g] = e.define("gh."+g, e.ghostDecl[g], sIte(sEq(idx.S, e.intLit(types.Typ[types.Int], fmt.Sprint(i))), nv, ov))
+				}
+			}
 		}
 	}
 	f.set(in, Val{T: in.Type(), Tuple: vals})
